@@ -3,6 +3,7 @@ policy/spec/geometry_algebra.json (affine abstract evaluation of the HIR; nothin
 import json
 import os
 
+from sa.prog import op_place as A_op_place
 from sa import algebra as A
 
 SPEC = os.path.join(os.path.dirname(os.path.dirname(os.path.abspath(__file__))), "spec", "geometry_algebra.json")
@@ -306,3 +307,43 @@ def check_sites(prog, chk, pid):
         else:
             chk.bad("A17.site-algebra", f"{name}", b.where(), f"{short}: the values {'passed to ' + ent['watch'] + '()' if ent.get('watch') else 'returned'} disagree with the reference algebra ({ent.get('why', '')}): {why}")
     return n
+
+
+FLOAT_TRUNCATION_OK = {
+    "svgdx::functions::eval_function": (3, "select(n, ..) index and the bounds of randint(): documented integer arguments"),
+    "svgdx::types::fstr": (2, "the output formatter's integer fast path (value equal to its truncation is printed without decimals)"),
+}
+
+
+def check_float_truncation(prog, chk):
+    """geometry is computed in f32 throughout: a float is cast to an integer type (truncation, saturation) only at the
+    reviewed places.  One more such cast - e.g. a distance cast to u64 to get an `Ord` key - makes different values
+    compare equal and the choice between them depend on their order"""
+    import collections
+    import re
+
+    strip = lambda p: re.sub(r"(::\{closure#\d+\})+", "", p)  # noqa: E731
+    cnt = collections.Counter()
+    where = {}
+    total = 0
+    for b in prog.bodies.values():
+        if b.unit != "svgdx-lib":
+            continue
+        for x, i, st in b.all_stmts():
+            rv = st.get("rv") or {}
+            if rv.get("k") != "cast":
+                continue
+            total += 1
+            pl = A_op_place(rv.get("op"))
+            sty = b.local_ty(pl[0]) if pl and not pl[1] else ((rv.get("op") or {}).get("k") or {}).get("ty")
+            dty = rv.get("ty") or b.local_ty(st["lhs"][0])
+            if sty in ("f32", "f64") and dty and re.fullmatch(r"[iu](8|16|32|64|128|size)", dty):
+                f = strip(b.path)
+                cnt[f] += 1
+                where.setdefault(f, b.where(x, st.get("line")))
+    chk.floor("A14.float-truncation", total, 20, "cast in the library (positive control of the matcher)")
+    for f in sorted(set(cnt) | set(FLOAT_TRUNCATION_OK)):
+        allowed, why = FLOAT_TRUNCATION_OK.get(f, (0, ""))
+        if f not in FLOAT_TRUNCATION_OK:
+            allowed = sum(FLOAT_TRUNCATION_OK.get(o, (0, ""))[0] for o in prog.owners_of(f))
+        chk.ob(cnt[f] <= allowed, "A14.float-truncation", f.replace("svgdx::", ""), where.get(f, "-"), f"{cnt[f]} float -> integer cast(s) (reviewed: {allowed}; {why})", f"{f.replace('svgdx::', '')} casts a float to an integer type at {cnt[f]} place(s) (reviewed: {allowed}): the fraction is cut off (and the range saturates), so distinct lengths / distances / coordinates become equal - a choice made on such a key (nearest side, shortest link) is decided by enumeration order instead", by="table")
